@@ -3,7 +3,6 @@ import Momo.Proof.TableStep
   C07, index level: removal. The store restricted to the rows a filter keeps (`keepRows`), restriction of a unique
   and of a multi index, `PrepareRemove` + `AcceptRemove` of one raw in a unique / a multi index.
 -/
-set_option maxRecDepth 2000
 namespace Momo.Table
 open List
 /-! ### the store without some rows -/
